@@ -3,10 +3,32 @@
 use crate::term::Term;
 
 pub mod elem;
+pub mod poly;
+pub mod round2;
+pub mod ideal;
+pub mod algorder;
+pub mod polyz;
+pub mod polymod;
+pub mod res;
+pub mod lll;
+pub mod ecm;
+pub mod linalg;
+pub mod hnf;
 
 pub fn dispatch(op: &str, args: &[Term]) -> Option<Term> {
     if op == "ping" {
         return Some(crate::term::tl(args.to_vec()));
     }
     None.or_else(|| elem::dispatch(op, args))
+        .or_else(|| poly::dispatch(op, args))
+        .or_else(|| round2::dispatch(op, args))
+        .or_else(|| ideal::dispatch(op, args))
+        .or_else(|| algorder::dispatch(op, args))
+        .or_else(|| polyz::dispatch(op, args))
+        .or_else(|| polymod::dispatch(op, args))
+        .or_else(|| res::dispatch(op, args))
+        .or_else(|| lll::dispatch(op, args))
+        .or_else(|| ecm::dispatch(op, args))
+        .or_else(|| linalg::dispatch(op, args))
+        .or_else(|| hnf::dispatch(op, args))
 }
